@@ -84,6 +84,7 @@ type Dev struct {
 	Reorder   bool `json:"reorder"`
 	Dup       bool `json:"dup"`
 	Premature bool `json:"premature"` // timer fires while messages are in flight (safety mode)
+	Tick      bool `json:"tick"`      // timed mode: a second passes while messages are in flight (never across an armed deadline)
 	Hold      bool `json:"hold"`      // postpone one in-flight message until nothing else is deliverable
 	Stale     bool `json:"stale"`
 	Perm      bool `json:"perm"`
@@ -603,6 +604,21 @@ func (w *World) enabled() []Event {
 		}
 	}
 	// 5. timers
+	if sc.Timed && sc.Dev.Tick && len(w.net) > 0 {
+		ok := true
+		nt := w.now.Add(time.Second)
+		for _, n := range w.nodes {
+			if n.live() && n.wantsTimer() && !n.t.deadline().After(nt) {
+				ok = false
+			}
+		}
+		if w.newTxDone < len(sc.NewTxAt) && !w.start.Add(time.Duration(sc.NewTxAt[w.newTxDone])*time.Millisecond).After(nt) {
+			ok = false
+		}
+		if ok {
+			alt(Event{K: "tick", N: 0})
+		}
+	}
 	if sc.Timed {
 		if quiescent && !have {
 			// advance to the earliest deadline; all nodes sharing it may fire in any order
@@ -851,6 +867,11 @@ func (w *World) apply(e Event) {
 		w.steps--
 		if key, msg := c14Compare(w.sc, w.hist[:len(w.hist)-1]); key != "" {
 			w.violate("C14", key, nil, msg)
+		}
+	case "tick":
+		w.now = w.now.Add(time.Second)
+		for _, o := range w.nodes {
+			o.fpValid = false
 		}
 	case "detcheck":
 		w.steps--
